@@ -14,7 +14,7 @@ meta = json.load(open(os.path.join(md, "meta.json")))
 demo = glob.glob(os.path.join(md, "zz_demo*_test.go"))[0]
 demo_dir = os.path.join(wt, meta.get("demo_dir", "."))
 demo_dst = os.path.join(demo_dir, os.path.basename(demo))
-run("git checkout -- . && git clean -fdq -e _mut")
+run("git checkout -- . && git clean -fdq -e _mut -e _out")
 res = {}
 try:
     rc, out = run("git apply --check %s && git apply %s" % (os.path.join(md, "patch.diff"), os.path.join(md, "patch.diff")))
